@@ -26,7 +26,7 @@ RUNS = {"quick": 12000, "thorough": 200000}
 BUDGET = {"quick": 100.0, "thorough": 3300.0}
 RULE = ("run i = ~12 secured frames with APDU lengths starting at 2 + (i mod 239) (every length 2..240 is reached within 239 "
         "runs), random keys / addresses / 48-bit sequence numbers, both algorithms, from three kinds of senders, over a "
-        "fault-free or a duplicating/delaying bus; non-trivial = all frames delivered exactly once; distinct = distinct "
+        "fault-free or a duplicating/delaying/damaging (damaged copy, then intact repetition) bus; non-trivial = all frames delivered exactly once; distinct = distinct "
         "(sender kind, algorithm, APDU length) triples")
 REAL = ["xknx.secure.data_secure.DataSecure (sender and receiver)", "xknx.secure.data_secure_asdu.SecureData",
         "xknx.cemi.CEMIHandler / CEMIFrame codec", "xknx.core.TelegramQueue", "xknx.telegram.apci"]
@@ -55,7 +55,8 @@ def gen_index(i: int, seed: int, tier: str) -> dict[str, Any]:
                        "src_i": rng.randrange(3), "src_via": rng.choice(["explicit", "current"])})
     faulty = rng.random() < 0.4
     return {"seed": seed, "tier": "S", "config": {"batch": 1},
-            "frames": frames, "fault_policy": {"dup": 0.2, "delay": 0.2, "delays": [0.003, 0.05], "dup_delays": [0.001, 0.1]} if faulty else None,
+            "frames": frames, "fault_policy": {"dup": 0.2, "delay": 0.2, "delays": [0.003, 0.05], "dup_delays": [0.001, 0.1],
+                             "corrupt": 0.15} if faulty else None,
             "ops": []}
 
 
@@ -94,8 +95,16 @@ def run(plan: dict[str, Any]) -> dict[str, Any]:
 
     def to_bus(raw):
         # FIFO bus: duplicates (= replays) and jitter, but no reordering - a reordered frame is legitimately stale (C17)
-        d = R.faults.decide("bus", 0)
+        d = R.faults.decide("bus", len(raw))
         t = max(loop.time() + d["lat"], last_t[0])
+        if "corrupt" in d:
+            # a transmission damaged on the line, followed by its link-layer repetition: the intact frame still has to
+            # be accepted (the damaged copy must not use up its sequence number)
+            off, bit = d["corrupt"]
+            bad = bytearray(raw)
+            bad[off] ^= 1 << bit
+            loop.at(t, lambda: rx.stub.deliver(bytes(bad), "bus_damaged"), label="bus_damaged")
+            t += 0.002
         last_t[0] = t
         loop.at(t, lambda: rx.stub.deliver(raw, "bus"), label="bus")
         if "dup" in d:
